@@ -613,7 +613,12 @@ def run_re(case):
             try:
                 RE(plan(op["plan"]), _subs_arg(pool, op["subs"]))
             except CbError as e:
-                outcome = {"result": "CbError", "ident": e.ident}
+                chain, x = [], e
+                while x is not None and len(chain) < 20:
+                    if isinstance(x, CbError):
+                        chain.append(x.ident)
+                    x = x.__cause__ or x.__context__
+                outcome = {"result": "CbError", "ident": e.ident, "chain": chain}
             except Exception as e:  # anything else is reported as is
                 outcome = {"result": type(e).__name__, "msg": str(e)[:200]}
             mode["m"] = "top"
